@@ -218,6 +218,51 @@ def nextServer (lb : LB) : RR.Res × LB :=
   (r.1, { lb with it := r.2 })
 end LB
 
+/-! ## the rebalancer's administration
+
+`Rebalancer.Servers()` and `NextServer()` delegate to the wrapped balancer; what the rebalancer adds is its own
+list of records (`rb.servers`: URL, configured weight).  Servers may also be registered on the wrapped balancer
+directly, so the two lists can differ.  With healthy backends no weight is ever re-rated, so `curWeight` is
+`origWeight` throughout and `reset()` re-upserts every record with its configured weight. -/
+
+structure RB where
+  lb : LB
+  recs : List (URL × Nat)
+deriving Repr
+
+namespace RB
+/-- `rb.reset()`: `rb.next.UpsertServer(s.url, Weight(s.origWeight))` for every record, in order -/
+def reset (lb : LB) (recs : List (URL × Nat)) : LB := recs.foldl (fun lb r => lb.upsert r.1 (some r.2)) lb
+
+def findRec (recs : List (URL × Nat)) (k : Key) : Option (URL × Nat) := recs.find? fun r => r.1.key == k
+
+/-- `Rebalancer.UpsertServer(u, Weight(w))` (`w = none`: no option) -/
+def upsert (rb : RB) (u : URL) (w : Option Nat) : RB :=
+  -- an existing record: the configured weight is derived from the record, then `Weight(configured)` is passed on
+  let opt : Option Nat := match findRec rb.recs u.key with
+    | some r => some (w.getD r.2)
+    | none => w
+  let lb1 := rb.lb.upsert u opt
+  -- `weight, _ := rb.next.ServerWeight(u)`
+  let weight := match lb1.srvs.find? (fun s => s.url.key == u.key) with | some s => s.w | none => 0
+  -- `rb.upsertServer(u, weight)`
+  let recs1 := match findRec rb.recs u.key with
+    | some _ => rb.recs.map fun r => if r.1.key == u.key then (r.1, weight) else r
+    | none => rb.recs ++ [(u, weight)]
+  ⟨reset lb1 recs1, recs1⟩
+
+/-- `Rebalancer.RemoveServer(u)`; `none` = error (no record, or the wrapped balancer does not have the server) -/
+def remove (rb : RB) (u : URL) : Option RB :=
+  match findRec rb.recs u.key with
+  | none => none
+  | some _ =>
+    match rb.lb.remove u with
+    | none => none
+    | some lb1 =>
+      let recs1 := rb.recs.filter fun r => r.1.key != u.key
+      some ⟨reset lb1 recs1, recs1⟩
+end RB
+
 /-! ## `StickySession` and `ServeHTTP` -/
 
 structure Session where
